@@ -70,6 +70,12 @@ def requests(ctx, side, codes):
                 if age is None: continue
                 for k in cand:
                     out.append((row.gender, row.event, k, age + rng.randrange(0, 5), False, k / 100.0))
+        else_k = [k for k in aks if k >= 0][:12]
+        if row.key() != 'M-800':
+            # the English Schools option concerns the boys' 800 m only: every other row scores as without it
+            for k in else_k:
+                out.append((row.gender, row.event, k, None, True, k / 100.0))
+                out.append((row.gender, row.event, k, 52, True, k / 100.0))
         if row.key() == 'M-800':
             for k in (ks if quick else range(0, km + 1)):
                 out.append((row.gender, row.event, k, None, True, k / 100.0))
